@@ -174,6 +174,23 @@ func genC04(t *rapid.T) C04Case {
 		op.Dt = rapid.SampledFrom([]int64{5, 86400, 364 * 86400, 366 * 86400}).Draw(t, "dt")
 		c.Ops = append(c.Ops, op)
 	}
+	if rapid.IntRange(0, 4).Draw(t, "expiry-scenario") == 0 {
+		// approve (unlimited or limited), use the grant, let time pass to just before / just after its expiry, use it again
+		g, m, v := rapid.IntRange(0, 2).Draw(t, "sc-g"), rapid.IntRange(0, 2).Draw(t, "sc-m"), rapid.IntRange(0, 1).Draw(t, "sc-val")
+		if m != 0 {
+			m = rapid.IntRange(0, 1).Draw(t, "sc-m2") // mostly delegate / undelegate: they succeed in the prepared state
+		}
+		limit := rapid.SampledFrom([]string{"max", "max", "400000", "800000"}).Draw(t, "sc-limit")
+		sc := []C04Op{{K: "approve", G: g, M: m, Amt: limit, Val: v}, {K: "spend", G: g, M: m, Amt: "1000", Val: v}}
+		if rapid.Bool().Draw(t, "sc-twice") {
+			sc = append(sc, C04Op{K: "spend", G: g, M: m, Amt: "1", Val: v})
+		}
+		sc = append(sc, C04Op{K: "advance", Dt: rapid.SampledFrom([]int64{364 * 86400, 366 * 86400, 366 * 86400}).Draw(t, "sc-dt")}, C04Op{K: "spend", G: g, M: m, Amt: "1000", Val: v})
+		c.Ops = append(sc, c.Ops...)
+		if len(c.Ops) > 10 {
+			c.Ops = c.Ops[:10]
+		}
+	}
 	return c
 }
 
@@ -198,7 +215,10 @@ func runC04B(st *ev.Stats, c C04Case) string {
 			a, exp := app.AuthzKeeper.GetAuthorization(n.Ctx(), pxFrameAcc(g), pxSigner.Addr, c04Msgs[m])
 			if a != nil {
 				sa := a.(*stakingtypes.StakeAuthorization)
-				gr := &c04Grant{Expiry: *exp}
+				gr := &c04Grant{Expiry: chain.GenesisTime.AddDate(100, 0, 0)}
+				if exp != nil {
+					gr.Expiry = *exp
+				}
 				if sa.MaxTokens == nil {
 					gr.Unlimited = true
 				} else {
@@ -376,6 +396,9 @@ func runC04B(st *ev.Stats, c C04Case) string {
 					sa := a.(*stakingtypes.StakeAuthorization)
 					if (sa.MaxTokens == nil) != l.Unlimited || (!l.Unlimited && sa.MaxTokens.Amount.BigInt().Cmp(l.Limit) != 0) {
 						return fail("grant-ledger-mismatch:"+op.K, fmt.Sprintf("after op %d %+v: on-chain limit frame%d/%s = %v, ledger %+v", i, op, g, c04Methods[m], sa.MaxTokens, l))
+					}
+					if exp == nil {
+						return fail("grant-expiry-mismatch:"+op.K, fmt.Sprintf("after op %d %+v: the on-chain grant frame%d/%s has no expiration, ledger says %s", i, op, g, c04Methods[m], l.Expiry))
 					}
 					if !exp.Equal(l.Expiry) {
 						return fail("grant-expiry-mismatch:"+op.K, fmt.Sprintf("after op %d: expiry %s, ledger %s", i, exp, l.Expiry))
